@@ -153,6 +153,19 @@ def drive_sort(sc):
                 value = -value if col[0] == "objneg" else value
         trace.append({**base, "ev": "Sort", "via": "e2e", "outcome": outcome2,
                       "w": nums(w) if w is not None else [], "value": num(value)})
+    # functions, then the gradient requested separately at the same point: the weights in force for the gradient are the same
+    if outcome != "rejected":
+        ee4 = ensemble_evaluator(config, _Pert(TableEvaluator(o, c)))
+        fres, outcome4 = outcome_of(lambda: ee4.calculate(np.zeros(2), compute_functions=True, compute_gradients=False))
+        w = None
+        if fres is not None and fres[0].functions is None:
+            outcome4 = "nofunctions"
+        elif fres is not None:
+            gres, outcome4 = outcome_of(lambda: ee4.calculate(np.zeros(2), compute_functions=False, compute_gradients=True))
+            if gres is not None:
+                rows = gres[-1].realizations.objective_weights if col[0] != "con" else gres[-1].realizations.constraint_weights
+                w = None if rows is None else rows[col[1]]
+        trace.append({**base, "ev": "Sort", "via": "gradient", "outcome": outcome4, "w": nums(w) if w is not None else [], "value": num(None)})
     # the same ensemble as the FIRST vector of a two-vector batch of an evaluator step (the second vector evaluates without
     # failures): the step ends with TOO_FEW_REALIZATIONS exactly when the window selects nothing for the first vector
     if outcome != "rejected":
